@@ -420,11 +420,252 @@ class Impl:
         return self.memo[k]
 
 
+# ---------------------------------------------------------------------------
+# special branches of the class: functions of number operators, Pauli matrices, symbolic / fractional /
+# negative powers, division, substitution, arithmetic with plain sympy expressions, exception classes.
+# A special evaluation is ("special", [spec]) with a JSON spec; sides may also be ("vec", fn(sp, st)).
+
+_T = sympy.Symbol("t")
+_K = sympy.Symbol("k", integer=True, positive=True)
+
+
+def _fun_sympy(name, arg):
+    return {"factorial": sympy.factorial, "abs": sympy.Abs, "floor": lambda z: sympy.floor(z / 2), "binomial": lambda z: sympy.binomial(z, 2),
+            "sqrt": sympy.sqrt, "inv": lambda z: z ** sympy.Integer(-1), "inv2": lambda z: z ** sympy.Integer(-2)}[name](arg)
+
+
+def _fun_value(name, n):
+    """exact value on the integer n, or None where it is undefined / irrational (the state is skipped)"""
+    import math
+
+    if name == "factorial":
+        return Fr(math.factorial(n)) if n >= 0 else None
+    if name == "abs":
+        return Fr(abs(n))
+    if name == "floor":
+        return Fr(n // 2)
+    if name == "binomial":
+        return Fr(n * (n - 1), 2)
+    if name == "sqrt":
+        r = math.isqrt(n) if n >= 0 else -1
+        return Fr(r) if r >= 0 and r * r == n else None
+    if name == "inv":
+        return Fr(1, n) if n else None
+    if name == "inv2":
+        return Fr(1, n * n) if n else None
+    raise OracleInternalError(name)
+
+
+def _seq_vec(seq, sp, st):
+    """apply a sequence (leftmost factor LAST) of ["op", i, dag] / ["f", name, [modes], c] / ["tree", t] to a basis state"""
+    vec = {tuple(st): G1}
+    for item in reversed(seq):
+        if item[0] == "op":
+            vec = sp.apply_elem(item[1], item[2], vec)
+        elif item[0] == "tree":
+            vec = apply_tree(push_adj(item[1]), vec, sp)
+        else:
+            out = {}
+            for s2, c in vec.items():
+                v = _fun_value(item[1], sum(s2[i] for i in item[2]) + item[3])
+                if v is None:
+                    return None
+                v_add_to(out, s2, (c[0] * v, c[1] * v))
+            vec = out
+    return v_clean(vec)
+
+
+def _seq_sympy(seq, ops):
+    e = sympy.S.One
+    for item in seq:
+        if item[0] == "op":
+            o = ops[item[1]]
+            e = e * (Dagger(o) if item[2] else o)
+        elif item[0] == "tree":
+            e = e * nc.to_sympy(item[1], ops)
+        else:
+            arg = sum((nc.NumberOperator(ops[i]) for i in item[2]), sympy.S.Zero) + item[3]
+            e = e * _fun_sympy(item[1], arg)
+    return e
+
+
+def _seq_str(seq, modes):
+    out = []
+    for item in seq:
+        if item[0] == "op":
+            out.append(nc.tree_str(item, modes))
+        elif item[0] == "tree":
+            out.append(nc.tree_str(item[1], modes))
+        else:
+            out.append("%s(%s%+d)" % (item[1], "+".join("N%d" % i for i in item[2]), item[3]))
+    return " * ".join(out)
+
+
+def _pauli_tree(which, i):
+    if which == "Z":
+        return ["sub", ["mul", ["const", "2", "0"], ["num", i]], ["const", "1", "0"]]
+    if which == "X":
+        return ["add", ["op", i, 0], ["op", i, 1]]
+    return ["sub", ["mul", ["const", "0", "1"], ["op", i, 0]], ["mul", ["const", "0", "1"], ["op", i, 1]]]
+
+
+def special_sides(spec, impl):
+    """-> (description, degree, left, right)   or   ("custom", message-or-None)"""
+    ops, modes = impl.ops, impl.modes
+    F = NumberOrderedForm.from_expr
+    kind = spec["sp"]
+    if kind == "seq":  # functions of number operators, sqrt / negative powers of number-only forms, inside products
+        seq = spec["seq"]
+        x = F(_seq_sympy(seq, ops), operators=ops)
+        deg = 2 + sum(1 if it[0] == "op" else (degree(it[1]) if it[0] == "tree" else 0) for it in seq)
+        return ("from_expr(%s) vs the direct action" % _seq_str(seq, modes), deg, ("vec", lambda sp, st: _seq_vec(seq, sp, st)), ("nof", x))
+    if kind == "nofpow":  # (number-only form) ** negative or fractional exponent through __pow__ / __truediv__
+        base = F(nc.NumberOperator(ops[spec["mode"]]) + spec["c"], operators=ops)
+        X = impl.build(spec["x"])
+        fn = {"-1": "inv", "-2": "inv2", "1/2": "sqrt"}[spec["e"]]
+        e = sympy.Rational(spec["e"])
+        if spec["how"] == "div":
+            y, seq = X / base, [["tree", spec["x"]], ["f", "inv", [spec["mode"]], spec["c"]]]
+        elif spec["how"] == "divconst":
+            y, seq = X / sympy.Rational(spec["c"] or 3), [["tree", ["mul", ["const", str(Fr(1, spec["c"] or 3)), "0"], spec["x"]]]]
+        elif spec["how"] == "left":
+            y, seq = (base**e) * X, [["f", fn, [spec["mode"]], spec["c"]], ["tree", spec["x"]]]
+        else:
+            y, seq = X * (base**e), [["tree", spec["x"]], ["f", fn, [spec["mode"]], spec["c"]]]
+        return ("%s with (N%d%+d)**%s [%s] vs the direct action" % (nc.tree_str(spec["x"], modes), spec["mode"], spec["c"], spec["e"], spec["how"]),
+                degree(spec["x"]) + 2, ("vec", lambda sp, st: _seq_vec(seq, sp, st)), ("nof", y))
+    if kind == "pauli":
+        i = spec["mode"]
+        P = {"X": nc.pauli.SigmaX, "Y": nc.pauli.SigmaY, "Z": nc.pauli.SigmaZ}[spec["which"]](ops[i].name)
+        other = nc.to_sympy(spec["other"], ops)
+        pt = _pauli_tree(spec["which"], i)
+        if spec["form"] == "plain":
+            e, t = P, pt
+        elif spec["form"] == "left":
+            e, t = P * other, ["mul", pt, spec["other"]]
+        elif spec["form"] == "right":
+            e, t = other * P, ["mul", spec["other"], pt]
+        else:
+            P2 = {"X": nc.pauli.SigmaX, "Y": nc.pauli.SigmaY, "Z": nc.pauli.SigmaZ}[spec["which2"]](ops[i].name)
+            e, t = P * P2 + other, ["add", ["mul", pt, _pauli_tree(spec["which2"], i)], spec["other"]]
+        return ("from_expr(%s) vs the direct action" % e, degree(t), ("tree", t), ("nof", F(e, operators=ops)))
+    if kind == "subs":
+        t1, t2, v = spec["t1"], spec["t2"], sympy.Rational(spec["v"])
+        x = F(_T * nc.to_sympy(t1, ops) + _T**2 * nc.to_sympy(t2, ops), operators=ops)
+        ref = ["add", ["mul", ["const", str(Fr(spec["v"])), "0"], t1], ["mul", ["const", str(Fr(spec["v"]) ** 2), "0"], t2]]
+        how = spec["how"]
+        y = x.subs(_T, v) if how == "subs" else (x.xreplace({_T: v}) if how == "xreplace" else x._poly_simplify().subs(_T, v))
+        return ("(t*(%s) + t^2*(%s)).%s(t=%s)" % (nc.tree_str(t1, modes), nc.tree_str(t2, modes), how, v), degree(ref), ("tree", ref), ("nof", y))
+    if kind == "mixed":  # arithmetic of a form with a plain sympy expression on either side
+        X, E, op = impl.build(spec["x"]), nc.to_sympy(spec["e"], ops), spec["op"]
+        y = {"radd": lambda: E + X, "add": lambda: X + E, "sub": lambda: X - E, "rsub": lambda: E - X,
+             "rmul": lambda: E * X, "mul": lambda: X * E}[op]()
+        if not isinstance(y, NumberOrderedForm):  # e.g. expr - form falls back to a sympy Add
+            y = F(sympy.sympify(y), operators=ops)
+        ref = {"radd": ["add", spec["e"], spec["x"]], "add": ["add", spec["x"], spec["e"]], "sub": ["sub", spec["x"], spec["e"]],
+               "rsub": ["sub", spec["e"], spec["x"]], "rmul": ["mul", spec["e"], spec["x"]], "mul": ["mul", spec["x"], spec["e"]]}[op]
+        return ("%s of the form %s and the plain expression %s" % (op, nc.tree_str(spec["x"], modes), nc.tree_str(spec["e"], modes)), degree(ref), ("tree", ref), ("nof", y))
+    if kind == "powsym":  # single unmatched term to a symbolic power
+        o = ops[spec["mode"]]
+        c = sympy.Rational(spec["c"])
+        x = F(c * (Dagger(o) if spec["dag"] else o), operators=ops)
+        y = x**_K
+        want_key = tuple((-_K if spec["dag"] else _K) if j == spec["mode"] else 0 for j in range(len(ops)))
+        got = [(tuple(k), v) for k, v in y.args[1]]
+        ok = len(got) == 1 and all(sympy.simplify(g - w) == 0 for g, w in zip(got[0][0], want_key)) and sympy.simplify(got[0][1] - c**_K) == 0
+        return ("custom", None if ok else "(%s*%s)**k gave %s, expected {%s: %s**k}" % (c, "op†" if spec["dag"] else "op", got, want_key, c))
+    if kind == "pownil":  # spin / fermion generator to a power > 1 through the non-integer branch
+        x = F(ops[spec["mode"]], operators=ops)
+        y = x ** sympy.Rational(3, 2)
+        return ("custom", None if (isinstance(y, NumberOrderedForm) and not y.args[1]) else "nilpotent generator ** (3/2) gave %s" % (y,))
+    if kind == "raises":
+        o = ops[spec["mode"]]
+        N = nc.NumberOperator(o)
+        acts = {
+            "func_nonconserving": lambda: F(sympy.Abs(o + Dagger(o)), operators=ops),
+            "func_nonconserving2": lambda: F(sympy.exp(N * o), operators=ops),
+            "pow_placeholder": lambda: F(N * o, operators=ops) ** sympy.Rational(1, 2),
+            "pow_negative": lambda: F(o, operators=ops) ** sympy.Integer(-1),
+            "pow_multi": lambda: F(o + Dagger(o), operators=ops) ** sympy.Integer(-1),
+            "div_nonconserving": lambda: F(N + 1, operators=ops) / F(o, operators=ops),
+            "subs_operator": lambda: F(N * o, operators=ops).subs(o, type(o)("zz")),
+            "unknown_operator": lambda: F(type(o)("zz") * o, operators=ops),
+        }
+        try:
+            r = acts[spec["what"]]()
+        except ValueError:
+            return ("custom", None)
+        except (OracleInternalError, CaseTimeout):
+            raise
+        except Exception as e:  # noqa: BLE001
+            return ("custom", "%s raised %s instead of ValueError: %s" % (spec["what"], type(e).__name__, str(e)[:120]))
+        return ("custom", "%s did not raise (returned %s)" % (spec["what"], str(r)[:120]))
+    raise OracleInternalError("unknown special %r" % (kind,))
+
+
+def special_cases(rng):
+    """one case of every special family (random parameters)"""
+    cases = []
+
+    def case(modes, spec, states=None):
+        cases.append(dict(kind="special", modes=modes, t=["const", "0", "0"], x=["const", "0", "0"], y=["const", "0", "0"], z=["const", "0", "0"],
+                          states=states or rand_states(rng, modes), evals=[["special", [spec]]]))
+    # functions of number operators
+    for _ in range(3):
+        name = rng.choice(["factorial", "floor", "binomial"])  # (Abs(...) is a COMMUTATIVE sympy object: sympy itself reorders it)
+        two = rng.random() < 0.3
+        modes = ["B", "B"] if two else [rng.choice("BBL")] if name != "factorial" else ["B"]
+        c = rng.randint(0, 2) if name == "factorial" else rng.randint(-2, 2)
+        if name == "factorial" and two:
+            modes = ["B", "B"]
+        fitem = ["f", name, [0, 1] if two else [0], c]
+        i = rng.randrange(len(modes))
+        form = rng.choice(["plain", "fa", "af", "fd", "afa"])
+        seq = {"plain": [fitem], "fa": [fitem, ["op", i, 0]], "af": [["op", i, 0], fitem], "fd": [fitem, ["op", i, 1]],
+               "afa": [["op", i, 1], fitem, ["op", i, 0]]}[form]
+        sts = None
+        if name == "factorial":
+            sts = [[rng.randint(1, 4) for _ in modes] for _ in range(5)]
+        case(modes, dict(sp="seq", seq=seq), sts)
+    # sqrt(N+1) as a sympy Pow with exponent 1/2 (states where it is rational)
+    case(["B"], dict(sp="seq", seq=[["f", "sqrt", [0], 1], ["op", 0, rng.randint(0, 1)]]), [[1], [4], [9]] if rng.random() < 0.5 else [[3], [8], [0]])
+    # negative / fractional powers of number-only forms and division
+    for how in ("div", "divconst", "left", "right"):
+        modes = [rng.choice("BL")] + ([rng.choice("BSF")] if rng.random() < 0.4 else [])
+        modes.sort(key=nc.KIND_ORDER.index)
+        m = [j for j, k in enumerate(modes) if k in "BL"][0]
+        e = "-1" if how in ("div", "divconst") else rng.choice(["-1", "-2", "1/2"])
+        sts = [[(v * v - 1) if (j == m and e == "1/2") else v for j, v in enumerate(st)] for st in rand_states(rng, modes)] if e == "1/2" else None
+        case(modes, dict(sp="nofpow", how=how, mode=m, c=rng.choice([1, 2, 3]) if e != "1/2" else 1, e=e, x=small(rng, modes)), sts)
+    # Pauli matrices
+    for which in ("X", "Y", "Z"):
+        modes = sorted([rng.choice("BLSF") for _ in range(rng.randint(0, 2))] + ["S"], key=nc.KIND_ORDER.index)
+        i = modes.index("S")
+        case(modes, dict(sp="pauli", which=which, which2=rng.choice("XYZ"), mode=i, form=rng.choice(["plain", "left", "right", "two"]), other=small(rng, modes)))
+    # substitution
+    modes = nc.rand_modes(rng, 1, 2)
+    case(modes, dict(sp="subs", how=rng.choice(["subs", "xreplace", "poly"]), v=str(Fr(rng.choice([2, 3, -1, 1]), rng.choice([1, 2]))),
+                     t1=small(rng, modes), t2=small(rng, modes)))
+    # arithmetic with plain sympy expressions
+    for op in rng.sample(["radd", "add", "sub", "rsub", "rmul", "mul"], 3):
+        modes = nc.rand_modes(rng, 1, 3)
+        case(modes, dict(sp="mixed", op=op, x=small(rng, modes), e=small(rng, modes)))
+    # symbolic powers, nilpotency, exception classes
+    modes = [rng.choice("BL")]
+    case(modes, dict(sp="powsym", mode=0, dag=rng.randint(0, 1), c=str(Fr(rng.choice([1, 2, 3]), rng.choice([1, 2])))), [[0]])
+    case([rng.choice("SF")], dict(sp="pownil", mode=0), [[0]])
+    for what in rng.sample(["func_nonconserving", "func_nonconserving2", "pow_placeholder", "pow_negative", "pow_multi", "div_nonconserving", "subs_operator", "unknown_operator"], 4):
+        case([rng.choice("BL")], dict(sp="raises", what=what, mode=0), [[0]])
+    return cases
+
+
 def check_sides(check, trees, impl):
     """-> (description, degree, left, right); left/right: ('tree', t) or ('nof', NumberOrderedForm)."""
     ops, modes = impl.ops, impl.modes
     F = NumberOrderedForm.from_expr
     s = lambda t: nc.tree_str(t, modes)  # noqa: E731
+    if check == "special":
+        return special_sides(trees[0], impl)
     if check == "tree_build":
         (t,) = trees
         return ("%s: matrix semantics vs operator-by-operator NumberOrderedForm arithmetic" % s(t), degree(t), ("tree", t), ("nof", impl.build(t)))
@@ -455,8 +696,14 @@ def run_check(check, modes, trees, states, impl=None, verbose=False):
     impl = impl or Impl(modes)
     ops = impl.ops
     try:
-        desc, deg, left, right = check_sides(check, trees, impl)
-        actors = [None if side[0] == "tree" else NofActor(side[1], ops) for side in (left, right)]
+        sides = check_sides(check, trees, impl)
+        if sides[0] == "custom":
+            msg = None if sides[1] is None else "special [%s] %s" % ("".join(modes), sides[1])
+            if verbose:
+                print("=> " + (msg or "as expected"))
+            return msg
+        desc, deg, left, right = sides
+        actors = [None if side[0] in ("tree", "vec") else NofActor(side[1], ops) for side in (left, right)]
     except (OracleInternalError, CaseTimeout):
         raise
     except Exception as e:  # noqa: BLE001
@@ -473,7 +720,7 @@ def run_check(check, modes, trees, states, impl=None, verbose=False):
         vals = []
         for side, actor in zip((left, right), actors):
             if actor is None:
-                vals.append(direct_action(side[1], sp, st))
+                vals.append(side[1](sp, st) if side[0] == "vec" else direct_action(side[1], sp, st))
             else:
                 try:
                     vals.append(actor.action(sp, st))
@@ -672,12 +919,16 @@ def gen_generic(rng, kind):
     return modes, t, x, y, z
 
 
-KINDS = ["word", "sum", "prod_of_sums", "adj", "pow", "fermi", "fermi", "fermi", "boson", "boson"]
+KINDS = ["word", "sum", "prod_of_sums", "adj", "pow", "powterm", "powterm", "fermi", "fermi", "fermi", "boson", "boson"]
 KINDS_THOROUGH = KINDS + ["deep", "deep"]
 
 
 def gen_case(rng, kind=None, kinds=KINDS):
     kind = kind or rng.choice(kinds)
+    if kind == "powterm":  # (f(N_a) a^p)^k etc.: checked through x**k (tree_build) and from_expr of the sympy Pow
+        modes, t = nc.rand_powterm(rng)
+        x, y, z = t[1], small(rng, modes), small(rng, modes)
+        return dict(kind=kind, modes=modes, t=t, x=x, y=y, z=z, states=rand_states(rng, modes))
     if kind == "fermi":
         modes, t, x, y, z = gen_fermi(rng)
     elif kind == "boson":
@@ -689,6 +940,8 @@ def gen_case(rng, kind=None, kinds=KINDS):
 
 def case_evaluations(case):
     """[(check, trees)] of a case"""
+    if case.get("kind") == "special":
+        return [tuple(e) for e in case["evals"]]
     t, x, y, z = case["t"], case["x"], case["y"], case["z"]
     ev = [("tree_build", [t]), ("tree_from_expr", [t])]
     xy = ["mul", x, y]
@@ -700,6 +953,12 @@ def case_evaluations(case):
 
 
 def composite(check, trees):
+    if check == "special":
+        return ["const", "0", "0"]
+    return _composite(check, trees)
+
+
+def _composite(check, trees):
     """the expression whose non-triviality is counted for an evaluation"""
     if check in ("tree_build", "tree_from_expr", "round_trip"):
         return trees[0]
@@ -762,7 +1021,11 @@ def witness_cases():
     f, g, gd = ["op", 0, 0], ["op", 1, 0], ["op", 1, 1]
     w2 = dict(kind="witness", modes=["F", "F"], t=["mul", gd, ["mul", f, g]], x=gd, y=["mul", f, g], z=["mul", g, f],
               states=[[0, 0], [0, 1], [1, 0], [1, 1]])
-    return [w1, w2]
+    ws = [w1, w2]
+    for m, t in nc.POWTERM_WITNESSES:  # integer powers of single-term forms with number-dependent coefficients
+        sts = [[0], [1], [2], [3], [4]] if m == ["B"] else [[-3], [-1], [0], [1], [2]]
+        ws.append(dict(kind="witness", modes=m, t=t, x=t[1], y=t[1], z=["op", 0, 1], states=sts))
+    return ws
 
 
 def summarize(cases, results):
@@ -802,6 +1065,8 @@ def oracle_nof(ctx, ncases=None):
     n = ncases or ctx.n(40, 1500)
     kinds = KINDS if ctx.quick else KINDS_THOROUGH
     cases = witness_cases() + [gen_case(ctx.rng, kinds=kinds) for _ in range(n)]
+    for _ in range(ctx.n(1, 12)):
+        cases += special_cases(ctx.rng)
     return summarize(cases, run_cases(cases, parallel=not ctx.quick))
 
 
@@ -812,7 +1077,7 @@ def search(ctx):
     n = ctx.n(160, 3000)
     cases = witness_cases()
     for k in range(n):
-        cases.append(gen_case(ctx.rng, kind=("fermi", "boson", "fermi", "prod_of_sums")[k % 4] if k % 8 else ("adj", "deep")[(k // 8) % 2]))
+        cases.append(gen_case(ctx.rng, kind=("fermi", "boson", "powterm", "prod_of_sums")[k % 4] if k % 8 else ("adj", "deep")[(k // 8) % 2]))
     return summarize(cases, run_cases(cases, parallel=True))["failures"]
 
 
@@ -821,7 +1086,7 @@ def replay_input(inp):
     modes, trees, states = inp["modes"], inp["trees"], inp["states"]
     print("check %s on modes %s" % (inp["check"], "".join(modes)))
     for t in trees:
-        print("  expression: %s" % nc.tree_str(t, modes))
+        print("  expression: %s" % (nc.tree_str(t, modes) if isinstance(t, list) else json.dumps(t)))
     bad = run_check(inp["check"], modes, trees, states, verbose=True)
     return bool(bad)
 
